@@ -152,8 +152,47 @@ def main():
       if safe(r, sig) != spec_eval(t, sig):
         viol('constructor-aliasing', 'term built for %r now reads %r (a shared sub-term was mutated); differs under %s' % (t, R(r), sig), spec=repr(t))
         break
+  pool_2vars = list(pool.items())     # the terms over x, y only: the restriction tables below cover exactly these variables
+  # deeper terms, built to provoke an equality that is coarser than the structure: siblings with the SAME leaves but a
+  # different nesting / connective (a set-based constructor silently drops one of two children that compare equal)
+  import random  # pylint: disable=g-import-not-at-top
+  rnd = random.Random(payload.get('seed', 0))
+  V3 = ['x', 'y', 'z']
+  leaves3 = [('eq', v, c) for v in V3 for c in VALUES]
+  sigs3 = [dict(zip(V3, vs)) for vs in itertools.product(VALUES, repeat=3)]
+
+  def nest(ls, top):
+    """a random nesting of the leaf list `ls` under connective `top` ('and'/'or'), alternating connectives"""
+    ls = list(ls)
+    rnd.shuffle(ls)
+    if len(ls) <= 2 or rnd.random() < 0.3:
+      return (top, tuple(ls))
+    k = rnd.randrange(1, len(ls))
+    other = 'or' if top == 'and' else 'and'
+    left = nest(ls[:k], other) if k > 1 else ls[0]
+    right = nest(ls[k:], other) if len(ls) - k > 1 else ls[k]
+    return (top, (left, right))
+  ndeep = 1500 if tier == 'quick' else 20000
+  deep_checked = 0
+  for _ in range(ndeep):
+    ls = rnd.sample(leaves3, rnd.choice([3, 3, 4]))
+    inner = rnd.choice(['and', 'or'])
+    a, b = nest(ls, inner), nest(ls, inner)
+    outer = rnd.choice(['and', 'or'])
+    t = (outer, (a, b)) if rnd.random() < 0.8 else (outer, (a, nest(ls, 'or' if inner == 'and' else 'and')))
+    try:
+      r = build(t)
+    except RecursionError:
+      continue
+    deep_checked += 1
+    for sig in sigs3:
+      if safe(r, sig) != spec_eval(t, sig):
+        viol('constructor', 'spec %r was built as %r; they differ under %s' % (t, R(r), sig), spec=repr(t))
+        break
+    if len(violations) >= 20:
+      break
   simp = 0
-  for t, r in list(pool.items()):
+  for t, r in pool_2vars:
     for tab in tables:
       try:
         s = r.simplify(tab)
@@ -169,7 +208,7 @@ def main():
           break
   print(json.dumps(dict(
       violations=violations,
-      bounded=[dict(function='booleq.Eq/And/Or', bound='%d spec terms of depth<=3 over 2 variables x 2 values incl. var==var, sub-term objects shared, all 4 valuations' % len(d2), cases=checked),
+      bounded=[dict(function='booleq.Eq/And/Or', bound='%d spec terms of depth<=3 over 2 variables x 2 values incl. var==var, sub-term objects shared, all 4 valuations; plus %d random terms of depth<=5 over 3 variables whose sibling sub-terms have the same leaves in different nestings' % (len(d2), deep_checked), cases=checked + deep_checked),
                dict(function='BooleanTerm.simplify', bound='every pooled term x 9 restriction tables x consistent valuations', cases=simp)],
       spec_validation=[dict(spec='bsem/val (z3 axioms) vs independent native evaluation over spec tuples')],
       counts=dict(terms=len(d2), simplify_calls=simp))))
